@@ -16,24 +16,32 @@ CLAIM = dict(
           "the input'), for any rank >= 2; windows are the clipped nested-loop ranges, complete in floor mode, never empty in ceil mode. "
           "These statements are about the code after the three C17 repairs (batch extent + blocked groups, per-axis dilation order, ceil-mode "
           "last window); against a tree without them the check reports the failing inputs as violations. "
+          "(5) softmax/softmin: the view composition of softmax.hpp is, in any scalar structure (floats included), the same expression "
+          "as the definition with the maximum of the SLICE along the axis as stabiliser (C17_softmax_structure). "
           "The element equation conv = nested loop is proved for the index maps per stage and corresponded end to end "
           "(partial: no single closed element theorem). Everything else is differential: conv1d/conv2d integer data exactly against the "
           "extracted nested-loop spec; max/avg pooling; softmax/softmin/norms/linear/bilinear/pairwise_distance/cosine_similarity on "
-          "doubles against a hand-written OCaml nested-loop oracle (not extracted) with relative tolerance 1e-9; libm and float "
-          "rounding are outside the model."),
+          "double AND float operands: the float side is an ORACLE COMPARISON WITHIN TOLERANCE, not a proof — against a hand-written OCaml "
+          "nested-loop oracle (not extracted) computed in double with the definitions' own per-slice stabilisation (softmax: maximum of the "
+          "slice; norms: two-pass mean/variance), relative tolerance 1e-9 for double operands, 1e-3 (+5e-4 absolute) for single-precision "
+          "operands, NaN/inf on one side only = mismatch; besides small well-scaled arrays a 'numerically wide' stream puts slices of one "
+          "array on very different scales (offsets 0, +-200, +-1000, the exp thresholds 88/104/709/745), one big constant, near-equal values, "
+          "zeros and negative values. libm and float rounding are outside the model."),
     ref="5.17", technique="Coq proof (symbolic evaluation of the shape pipeline at rank 3/4, index-map lemmas) + differential correspondence with the extracted model", extra="")
 RULE = ("seeded samples of the property's parameter product: batch 1..2, C,O 1..4 with every common divisor as groups, spatial 1..7, "
         "kernel 1..3, stride 1..3, padding 0..2, dilation 1..2 (uniform and per-axis), optional bias, positive output only; five argument-kind "
         "variants (None defaults / run-time scalars / per-axis arrays / compile-time groups / fixed-dimension operands); pooling: rank 2..4, H,W 1..7, kernel 1..3, "
-        "stride 1..3, both ceil modes, half of the arrays all-negative, three argument kinds; float routines on dim 2..4 arrays. "
+        "stride 1..3, both ceil modes, half of the arrays all-negative, three argument kinds; float routines on dim 1..4 arrays, double and "
+        "single precision, small well-scaled data plus the numerically wide stream (per-slice offsets along a random axis, big constants, "
+        "near-equal values, zeros, negatives) for every float routine. "
         "non-trivial = a spatial extent > 1 and (kernel > 1 or more than one channel); distinct = distinct case lines")
 THEOREM_STATUS = {
     "proved": ["C17_conv2d_out_shape", "C17_conv1d_out_shape", "C17_sliding_window_elem", "C17_expand_elem", "C17_pad_elem",
-               "C17_conv_reshape_maps", "C17_pool_out_shape", "C17_pool_extent_meaning", "C17_pool_window"],
+               "C17_conv_reshape_maps", "C17_pool_out_shape", "C17_pool_extent_meaning", "C17_pool_window", "C17_softmax_structure"],
     "partial": [],
     "refuted": []}
 ASSUMPTIONS = ["shape_pool2d's float division is modelled as exact rational division (true for extents below 2^23)",
-               "floating-point routines are compared with a hand-written OCaml oracle, not with an extracted model",
+               "floating-point routines are compared with a hand-written OCaml oracle (double, per-slice stabilisation) within tolerance, not with an extracted model; C17_softmax_structure ties only the Coq transcription of softmax.hpp to the definition",
                "conv element equality (model = nested loop) is established per case by the runner on conv_dom, not by a closed Coq theorem"]
 
 
@@ -41,7 +49,8 @@ def drivers(tier):
     d = {"conv1d": [("c17_conv1d.cpp", "ndebug", ()), ("c17_conv1d.cpp", "asan", ("-DVD_LIGHT",))],
          "conv2d": [("c17_conv2d.cpp", "ndebug", ()), ("c17_conv2d.cpp", "asan", ("-DVD_LIGHT",))],
          "pool": [("c17_pool.cpp", "ndebug", ()), ("c17_pool.cpp", "asan", ("-DVD_LIGHT",))],
-         "nn": [("c17_nn.cpp", "ndebug", ())]}
+         # double and float operands in one key (built side by side); each driver answers "unsupported" to the other's ops
+         "nn": [("c17_nn.cpp", "ndebug", (), ("c17_nn.inc", "c17_show.hpp")), ("c17_nn32.cpp", "ndebug", (), ("c17_nn.inc", "c17_show.hpp"))]}
     return d
 
 
@@ -113,6 +122,70 @@ def float_cases(rng, n):
     return out
 
 
+# ---- numerically wide data for the float routines -------------------------------------------------------------
+# values are integers / 8.  Offsets put different slices of one array on very different scales (a stabilisation that
+# uses anything but the slice's own maximum / mean underflows or loses precision there), near the overflow / underflow
+# thresholds of exp in single (88, 104) and double (709, 745) precision.
+OFFS64 = [0, 0, 200, -200, 1000, -1000, 88, -104, 709, -745]
+OFFS32 = [0, 0, 200, -200, 1000, -1000, 88, -104]
+# single precision, statistics (mean / variance) routines: the rounding error of (x - mean) / std is about |x| * 6e-8 / std, so the
+# offsets stay small and near-equal values stay near 0; the wide offsets are exercised by the double stream at 1e-9
+OFFS32_NORM = [0, 0, 50, -50]
+
+
+def wide_array(rng, shape, offs, mode=None, ne=None):
+    """(shape, data) with one of: per-slice offsets along a random axis / one big constant / near-equal values /
+    zeros and negatives"""
+    mode = mode or rng.choice(["offsets", "offsets", "offsets", "big", "near_equal", "zeros", "neg"])
+    n = prod(shape); d = len(shape)
+    idx = [[(k // prod(shape[a + 1:])) % shape[a] for a in range(d)] for k in range(n)]
+    if mode == "offsets":
+        ax = rng.randrange(d); per = [8 * rng.choice(offs) for _ in range(shape[ax])]
+        if shape[ax] > 1 and len(set(per)) == 1: per[0] = 8 * rng.choice([o for o in offs if 8 * o != per[1]])
+        return [rng.randint(-16, 16) + per[i[ax]] for i in idx]
+    if mode == "big":
+        c = 8 * rng.choice([o for o in offs if o != 0]); return [rng.randint(-16, 16) + c for _ in range(n)]
+    if mode == "near_equal":
+        c = 8 * rng.choice(ne if ne is not None else offs); return [c + rng.randint(0, 1) for _ in range(n)]
+    if mode == "zeros":
+        return [0 if rng.random() < 0.6 else rng.randint(-16, 0) for _ in range(n)]
+    return [rng.randint(-16, -1) for _ in range(n)]
+
+
+def wide_cases(rng, n, f32):
+    sfx = "32" if f32 else ""; offs = OFFS32 if f32 else OFFS64; noffs = OFFS32_NORM if f32 else OFFS64
+    ne = [0] if f32 else None
+    out = []
+    def shp(d, lo=1, hi=3): return [rng.randint(lo, hi) for _ in range(d)]
+    def small(s, lo=-16, hi=16): return A(s, rdata(rng, s, lo, hi))
+    for _ in range(n):
+        # softmax / softmin: rank >= 2 so that several slices along the axis exist; offsets along any axis
+        d = rng.randint(2, 4); s = shp(d, 2, 3) if d < 4 else shp(d, 1, 3); ax = rng.randint(-d, d - 1)
+        out.append("%s%s %s I:%d" % (rng.choice(["softmax", "softmin"]), sfx, A(s, wide_array(rng, s, offs)), ax))
+        s4 = [rng.randint(1, 2), rng.randint(1, 4), rng.randint(1, 3), rng.randint(1, 3)]; C = s4[1]
+        out.append("batch_norm%s %s %s %s %s %s" % (sfx, A(s4, wide_array(rng, s4, noffs, None, ne)), A([C], wide_array(rng, [C], noffs, "offsets")),
+                                                   small([C], 1, 24), small([C]), small([C])))
+        d = rng.randint(2, 4); s = shp(d, 2, 3) if d < 4 else shp(d, 1, 3); k = rng.randint(1, d - 1)
+        if prod(s[d - k:]) > 1: out.append("layer_norm%s %s %s %s" % (sfx, A(s, wide_array(rng, s, noffs, None, ne)), small(s[d - k:]), small(s[d - k:])))
+        nd = rng.choice([1, 2]); s = [rng.randint(1, 2), rng.randint(1, 3)] + [rng.randint(2, 3) for _ in range(nd)]
+        out.append("instance_norm%s I:%d %s %s %s" % (sfx, nd, A(s, wide_array(rng, s, noffs, None, ne)), small([s[1]]), small([s[1]])))
+        C = rng.randint(1, 4); g = rng.choice([x for x in range(1, C + 1) if C % x == 0])
+        s = [rng.randint(1, 2), C] + [rng.randint(1, 3) for _ in range(rng.choice([1, 2]))]
+        if prod(s[2:]) * (C // g) > 1: out.append("group_norm%s %s I:%d %s %s" % (sfx, A(s, wide_array(rng, s, noffs, None, ne)), g, small([C]), small([C])))
+        d = rng.randint(1, 3); s = shp(d)
+        out.append("pairwise_distance%s %s %s" % (sfx, A(s, wide_array(rng, s, noffs, None, ne)), A(s, wide_array(rng, s, noffs, None, ne))))
+        d = rng.randint(2, 4); s = shp(d); ax = rng.randint(0, d - 1)
+        out.append("cosine_similarity%s %s %s I:%d" % (sfx, A(s, wide_array(rng, s, noffs, None, ne)), A(s, wide_array(rng, s, noffs, None, ne)), ax))
+        if not f32:
+            # sums of products of multiples of 1/8 below 2^13 are exact in double in any order (not in float)
+            d = rng.randint(1, 3); s = shp(d); o = rng.randint(1, 3)
+            out.append("linear %s %s %s" % (A(s, wide_array(rng, s, OFFS64)), small([o, s[-1]]), small([o]) if rng.random() < 0.5 else "N"))
+            d = rng.randint(1, 3); lead = shp(d - 1); n1, n2, o = rng.randint(1, 3), rng.randint(1, 3), rng.randint(1, 3)
+            out.append("bilinear %s %s %s %s" % (A(lead + [n1], wide_array(rng, lead + [n1], OFFS64)), A(lead + [n2], wide_array(rng, lead + [n2], [0, 50, -50, 200])),
+                                                 small([o, n1, n2]), small([o]) if rng.random() < 0.5 else "N"))
+    return out
+
+
 def gen_cases(rng, tier):
     out = []
     n2, n1, npool, nfl = (700, 450, 700, 40) if tier == "quick" else (9000, 5000, 8000, 400)
@@ -138,6 +211,17 @@ def gen_cases(rng, tier):
     out.append(("pool", "max_pool2d S:arr A:1,1,4,4:-1,-2,-3,-4,-5,-6,-7,-8,-9,-10,-11,-12,-13,-14,-15,-16 L:3,3 L:2,2 I:1", "pool"))
     for _ in range(npool): out.append(("pool", pool_case(rng), "pool"))
     for l in float_cases(rng, nfl): out.append(("float", l, "nn"))
+    # the same small well-scaled cases through the single-precision driver
+    for l in float_cases(rng, max(8, nfl // 2)):
+        t = l.split(" ", 1); out.append(("float32", t[0] + "32 " + t[1], "nn"))
+    # fixed wide witnesses: two rows on different scales, the smaller row must not underflow
+    out.append(("float_wide", "softmax A:2,3:0,8,16,1600,1608,1616 I:1", "nn"))
+    out.append(("float_wide", "softmin A:2,3:0,8,16,8000,8008,8016 I:-1", "nn"))
+    out.append(("float_wide", "softmax32 A:2,3:0,8,16,1600,1608,1616 I:1", "nn"))
+    out.append(("float_wide", "softmax A:3,2:0,-6400,8,-6392,16,-6384 I:0", "nn"))
+    nw = 60 if tier == "quick" else 600
+    for l in wide_cases(rng, nw, False): out.append(("float_wide", l, "nn"))
+    for l in wide_cases(rng, nw, True): out.append(("float_wide", l, "nn"))
     return out
 
 
@@ -178,9 +262,15 @@ def classify(line, impl, spec, model):
 
 _INT = re.compile(r"^-?\d+$")
 def equal(a, b):
-    """shape exactly; elements exactly when both are integer literals, else relative tolerance 1e-9"""
+    """shape exactly; elements exactly when both are integer literals, else relative tolerance 1e-9 (double operands) or,
+    for result lines tagged "f32" (single-precision operands, reference computed in double), 1e-3 relative + 5e-4 absolute.
+    A NaN or an infinity on one side only is a mismatch."""
     a = " ".join(a.split()); b = " ".join(b.split())
     if a == b: return True
+    f32 = a.startswith("f32 ") and b.startswith("f32 ")
+    if a.startswith("f32 ") != b.startswith("f32 "): return False
+    if f32: a = a[4:]; b = b[4:]
+    rel, ab = (1e-3, 5e-4) if f32 else (1e-9, 1e-12)
     if not (a.startswith("ok ") and b.startswith("ok ")) or ";" not in a or ";" not in b: return False
     sa, ea = a[3:].split(";", 1); sb, eb = b[3:].split(";", 1)
     if sa.strip() != sb.strip(): return False
@@ -194,5 +284,8 @@ def equal(a, b):
         try: fx, fy = float(x), float(y)
         except ValueError: return False
         if math.isnan(fx) or math.isnan(fy): return False
-        if abs(fx - fy) > 1e-9 * max(abs(fx), abs(fy)) + 1e-12: return False
+        if math.isinf(fx) or math.isinf(fy):
+            if fx != fy: return False
+            continue
+        if abs(fx - fy) > rel * max(abs(fx), abs(fy)) + ab: return False
     return True
